@@ -18,6 +18,7 @@ mod gen;
 mod model;
 mod rng;
 mod runner;
+mod serde_engine;
 mod steps;
 
 use array_engine::{RunStats, Viol};
@@ -210,6 +211,8 @@ fn worker(args: &[String]) -> i32 {
         }
     } else if matches!(prop.as_str(), "C08" | "C09" | "C10") {
         return cursor_worker(prop, thorough, seed, build, start, end, hashfile, digest);
+    } else if matches!(prop.as_str(), "C18" | "C19") {
+        return serde_worker(prop, thorough, seed, build, start, end, hashfile, digest);
     } else {
         eprintln!("unknown property {}", prop);
         return 2;
@@ -299,6 +302,57 @@ fn cursor_worker(prop: &str, thorough: bool, seed: u64, build: &str, start: u64,
     0
 }
 
+fn sviol_to_viol(v: serde_engine::SViol) -> Viol {
+    Viol { kind: v.kind, detail: v.detail, step: 0, op: v.op, fault: None, after_fault: false, after_leak: false }
+}
+
+#[allow(clippy::too_many_arguments)]
+fn serde_worker(prop: &str, thorough: bool, seed: u64, build: &str, start: u64, end: u64, hashfile: &str, digest: bool) -> i32 {
+    let mut stats = serde_engine::SStats::default();
+    let mut hashes = BTreeSet::new();
+    let (mut runs, mut nontrivial, mut n_viol) = (0u64, 0u64, 0u64);
+    let mut samples: Vec<serde_json::Value> = Vec::new();
+    for run in start..end {
+        raw_out(&format!("B {}\n", run));
+        let mut rng = Rng::new(run_seed(seed, prop, build, run));
+        let t = serde_engine::gen_trace(&mut rng, prop, thorough);
+        let res = serde_engine::exec(&t, prop, &mut stats);
+        runs += 1;
+        let h = fnv(&serde_json::to_vec(&t).unwrap());
+        if digest {
+            let v = res.as_ref().err().map(|v| format!("{}|{}", v.kind, v.detail)).unwrap_or_default();
+            raw_out(&format!("D {} {:016x} 1\n", run, mix(&[h, fnv(v.as_bytes()), stats.cells])));
+        }
+        let executed = !matches!(res, Ok(false));
+        if executed && (t.cols > 0 || !t.muts.is_empty() || !t.byte_muts.is_empty()) {
+            nontrivial += 1;
+            hashes.insert(h);
+            if start == 0 && samples.len() < 3 {
+                samples.push(serde_json::to_value(&t).unwrap());
+            }
+        }
+        if let Err(v) = res {
+            n_viol += 1;
+            let tf = TraceFile { engine: "serde".into(), property: prop.to_string(), build: build.to_string(), seed, run, violation: Some(sviol_to_viol(v)), trace: serde_json::to_value(&t).unwrap() };
+            raw_out(&format!("V {}\n", serde_json::to_string(&serde_json::json!({"variant": 0, "file": tf})).unwrap()));
+            if n_viol >= 8 {
+                break;
+            }
+        }
+    }
+    if !write_hashes(hashfile, &hashes) {
+        return 2;
+    }
+    let out = serde_json::json!({
+        "runs": runs, "evaluations": runs, "nontrivial": nontrivial, "steps": runs, "cells_serialised": stats.cells,
+        "transport_faults": stats.transport_faults, "document_mutations": stats.doc_mutations, "outcomes": stats.outcomes,
+        "transport_pairs": stats.pairs, "element_types": stats.elems, "skipped_steps": stats.skipped,
+        "owned_violations": n_viol, "samples": samples, "foreign": {},
+    });
+    raw_out(&format!("S {}\n", out));
+    0
+}
+
 fn journal_cmd(args: &[String]) -> i32 {
     let prop = &args[0];
     let thorough = args[1] == "thorough";
@@ -324,6 +378,15 @@ fn journal_cmd(args: &[String]) -> i32 {
         let mut st = cursor::CStats::default();
         if let Err(v) = cursor::exec(&t, &mut st) {
             println!("J-VIOL {}", serde_json::to_string(&cviol_to_viol(v)).unwrap());
+        }
+        0
+    } else if matches!(prop.as_str(), "C18" | "C19") {
+        let mut rng = Rng::new(run_seed(seed, prop, build, run));
+        let t = serde_engine::gen_trace(&mut rng, prop, thorough);
+        let _ = f.write_all(format!("{}\n", serde_json::to_string(&t).unwrap()).as_bytes());
+        let mut st = serde_engine::SStats::default();
+        if let Err(v) = serde_engine::exec(&t, prop, &mut st) {
+            println!("J-VIOL {}", serde_json::to_string(&sviol_to_viol(v)).unwrap());
         }
         0
     } else {
@@ -380,6 +443,22 @@ fn exec_cmd(args: &[String]) -> i32 {
             let mut st = cursor::CStats::default();
             let v = cursor::exec(&trace, &mut st).err().map(|v| serde_json::json!({"owned": true, "viol": cviol_to_viol(v)}));
             println!("R {}", serde_json::json!({"violation": v, "steps_done": trace.calls.len()}));
+            0
+        }
+        "serde" => {
+            let trace: serde_engine::SerdeTrace = match serde_json::from_value(tf.trace.clone()) {
+                Ok(t) => t,
+                Err(e) => {
+                    eprintln!("bad serde trace: {}", e);
+                    return 2;
+                }
+            };
+            if let Some(p) = args.get(1) {
+                let _ = std::fs::write(p, format!("{}\n", serde_json::to_string(&trace).unwrap()));
+            }
+            let mut st = serde_engine::SStats::default();
+            let v = serde_engine::exec(&trace, &tf.property, &mut st).err().map(|v| serde_json::json!({"owned": true, "viol": sviol_to_viol(v)}));
+            println!("R {}", serde_json::json!({"violation": v, "steps_done": 1}));
             0
         }
         other => {
